@@ -216,7 +216,9 @@ def report(prop: str, tier: str, results: List[Dict[str, Any]], wall: float, ver
         for q, info in r["functions"].items():
             if not q.startswith("specs."):
                 functions.setdefault(q, info)
-        if r["kind"] in ("function", "lemma") and r["paths"] > 0 and r["returned_paths"] == 0 and not r["errors"]:
+        _u = next((u for u in _UNITS if getattr(u, "name", None) == r["name"]), None)
+        if (r["kind"] in ("function", "lemma") and r["paths"] > 0 and r["returned_paths"] == 0 and not r["errors"]
+                and not getattr(_u, "partial", False)):
             checker_errors.append(f"{r['name']}: vacuous (no path reaches the end: contradictory requires?)")
         if r["kind"].startswith("native"):
             n = r["native"]
